@@ -23,6 +23,7 @@ def handlers : List (String × Handler) := [
   ("c16.words", c16Words),
   ("c16.snake", c16Snake),
   ("c16.constraint", c16Constraint),
+  ("c16.guard", c16Guard),
   ("c16.classify", c16Classify),
   ("c16.one", c16One),
   ("c16.query", c16Query),
